@@ -67,9 +67,52 @@ theorem mtBurnMsg_core (s : State) (a : Addr) (cls id : Str) (amt : Nat) : (mtBu
   unfold mtBurnMsg; repeat' split
   all_goals first | rfl | exact userTx_core _ _ rfl
 
+/-! ### governance / relayer messages touch only the client registry, relayers and rules -/
+
+/-- the packet store, name and ghost logs of the core state, the applications and the callback
+    log are all unchanged -/
+structure AdminOnly (s t : State) : Prop where
+  name : t.core.name = s.core.name
+  ps : t.core.ps = s.core.ps
+  sent : t.core.sent = s.core.sent
+  ackLog : t.core.ackLog = s.core.ackLog
+  evlog : t.core.evlog = s.core.evlog
+  authority : t.core.authority = s.core.authority
+  apps : t.apps = s.apps
+  cbLog : t.cbLog = s.cbLog
+
+theorem AdminOnly.refl (s : State) : AdminOnly s s := ⟨rfl, rfl, rfl, rfl, rfl, rfl, rfl, rfl⟩
+
+theorem AdminOnly.grow {s t : State} (h : AdminOnly s t) : Grow s.core t.core :=
+  ⟨h.name, fun pr => by rw [h.ps]; exact Nat.le_refl _, fun k hk => Or.inl (by rw [h.ps]; exact hk),
+   ⟨[], by simp [h.sent]⟩, ⟨[], by simp [h.ackLog]⟩, ⟨[], by simp [h.evlog]⟩⟩
+
+theorem createClientMsg_admin (s : State) (auth : Addr) (q : Chain) (ct : String) (h t pd : Nat) (v cs : Bool) (sn : Snapshot) :
+    AdminOnly s (createClientMsg s auth q ct h t pd v cs sn).1 := by
+  unfold createClientMsg; repeat' split
+  all_goals first | exact AdminOnly.refl s | exact ⟨rfl, rfl, rfl, rfl, rfl, rfl, rfl, rfl⟩
+theorem upgradeClientMsg_admin (s : State) (auth : Addr) (q : Chain) (ct : String) (h t pd : Nat) (v cs : Bool) (sn : Snapshot) :
+    AdminOnly s (upgradeClientMsg s auth q ct h t pd v cs sn).1 := by
+  unfold upgradeClientMsg; repeat' split
+  all_goals first | exact AdminOnly.refl s | exact ⟨rfl, rfl, rfl, rfl, rfl, rfl, rfl, rfl⟩
+theorem registerRelayerMsg_admin (s : State) (auth : Addr) (q : Chain) (rs : List Addr) :
+    AdminOnly s (registerRelayerMsg s auth q rs).1 := by
+  unfold registerRelayerMsg; repeat' split
+  all_goals first | exact AdminOnly.refl s | exact ⟨rfl, rfl, rfl, rfl, rfl, rfl, rfl, rfl⟩
+theorem setRulesMsg_admin (s : State) (auth : Addr) (rules : List Str) :
+    AdminOnly s (setRulesMsg s auth rules).1 := by
+  unfold setRulesMsg; repeat' split
+  all_goals first | exact AdminOnly.refl s | exact ⟨rfl, rfl, rfl, rfl, rfl, rfl, rfl, rfl⟩
+theorem updateClientMsg_admin (s : State) (signer : Addr) (q : Chain) (h t : Nat) (ok : Bool) (sn : Snapshot) :
+    AdminOnly s (updateClientMsg s signer q h t ok sn).1 := by
+  unfold updateClientMsg; repeat' split
+  all_goals first | exact AdminOnly.refl s | exact ⟨rfl, rfl, rfl, rfl, rfl, rfl, rfl, rfl⟩
+
 /-- the chain an operation acts on -/
 def Op.chain : Op → Chain
   | .tx c _ | .ksend c _ | .createClient c _ _ _ _ | .update c _ _ _ | .setRules c _ | .setTime c _
+  | .createClientMsg c _ _ _ _ _ _ _ _ | .upgradeClientMsg c _ _ _ _ _ _ _ _ | .registerRelayerMsg c _ _ _
+  | .setRulesMsg c _ _ | .updateClientMsg c _ _ _ _ _
   | .nftIssue c _ _ _ | .nftMint c _ _ _ _ _ | .nftSend c _ _ _ _ | .nftBurn c _ _ _
   | .mtIssue c _ _ | .mtMint c _ _ _ _ _ _ | .mtSend c _ _ _ _ _ | .mtBurn c _ _ _ _ => c
 
@@ -110,6 +153,11 @@ theorem step_grow (w : World) (op : Op) (q : Chain) : Grow (w q).core ((step H H
     | setTime c now =>
       simp only [step, Op.chain, setChain_same]
       exact ⟨rfl, fun _ => Nat.le_refl _, fun _ h => Or.inl h, ⟨[], by simp⟩, ⟨[], by simp⟩, ⟨[], by simp⟩⟩
+    | createClientMsg c auth q' ct h t pd v cs => simp only [step, Op.chain, setChain_same]; exact (createClientMsg_admin _ _ _ _ _ _ _ _ _ _).grow
+    | upgradeClientMsg c auth q' ct h t pd v cs => simp only [step, Op.chain, setChain_same]; exact (upgradeClientMsg_admin _ _ _ _ _ _ _ _ _ _).grow
+    | registerRelayerMsg c auth q' rs => simp only [step, Op.chain, setChain_same]; exact (registerRelayerMsg_admin _ _ _ _).grow
+    | setRulesMsg c auth rules => simp only [step, Op.chain, setChain_same]; exact (setRulesMsg_admin _ _ _).grow
+    | updateClientMsg c sg q' h t ok => simp only [step, Op.chain, setChain_same]; exact (updateClientMsg_admin _ _ _ _ _ _ _).grow
     | nftIssue c a cls mr => simp only [step, Op.chain, setChain_same, nftIssueMsg_core]; exact Grow.refl _
     | nftMint c a cls id u rc => simp only [step, Op.chain, setChain_same, nftMintMsg_core]; exact Grow.refl _
     | nftSend c a cls id rc => simp only [step, Op.chain, setChain_same, nftSendMsg_core]; exact Grow.refl _
